@@ -1219,7 +1219,7 @@ def _cmp_number(a, b):
 def _sort_nodes(st, c, nodes, sorts):
     """10: stable, multiple keys; the keys are evaluated with the node as
     current node and the UNSORTED list as current node list."""
-    if not sorts or len(nodes) < 2 and not sorts:
+    if not sorts:
         return nodes
     specs = []
     for s in sorts:
@@ -1891,7 +1891,9 @@ class _Compiler(object):
                     ins.append(v)
                     binds = True
                     continue
-                f = getattr(self, 'i_' + n.local.replace('-', '_'), None)
+                f = None
+                if '_' not in n.local:
+                    f = getattr(self, 'i_' + n.local.replace('-', '_'), None)
                 if f is None:
                     if n.local == 'fallback':
                         raise XSLTUnsupported('xsl:fallback')
@@ -2147,3 +2149,534 @@ def compile_stylesheet(text, uri=None, resolver=None):
     ld = _Loader(resolver)
     ld.load_level(text, uri, [])
     return _Compiler(ld.decls, uri).build()
+
+
+# ---------------------------------------------------------------------------
+# Source-tree whitespace stripping (3.4) and result tree -> data model
+# ---------------------------------------------------------------------------
+def _clone_document(doc, drop):
+    """Copy of a vf.model Document without the text nodes in `drop` (a set)."""
+    new = _model.Document(doc.uri)
+    new.unparsed_entities = dict(doc.unparsed_entities)
+    mapping = {}
+
+    def clone(n, parent):
+        m = _model.Node(n.kind, new, parent)
+        m.uri, m.local, m.prefix, m.qname, m.value = n.uri, n.local, n.prefix, n.qname, n.value
+        m.nsdecls = n.nsdecls
+        m._nsmap = n._nsmap
+        mapping[n] = m
+        for x in n.namespaces:
+            y = _model.Node('namespace', new, m)
+            y.local, y.qname, y.value = x.local, x.qname, x.value
+            m.namespaces.append(y)
+        for x in n.attributes:
+            y = _model.Node('attribute', new, m)
+            y.uri, y.local, y.prefix, y.qname, y.value = x.uri, x.local, x.prefix, x.qname, x.value
+            m.attributes.append(y)
+        for ch in n.children:
+            if ch.kind == 'text' and ch in drop:
+                continue
+            m.children.append(clone(ch, m))
+        return m
+    root = clone(doc.root, None)
+    new.root = root
+    for k, el in doc.ids.items():
+        new.ids[k] = mapping[el]
+    _model._finalize(new)
+    return new
+
+
+def _result_to_model(root, uri):
+    """Result tree fragment -> vf.model Document (so that ref_xpath can work
+    on it).  Namespace nodes: an element gets its parent's namespace nodes,
+    its own, and bindings for the names it and its attributes use (as if the
+    fragment had been serialized with namespace fix-up and parsed)."""
+    doc = _model.Document(uri)
+    counter = [0]
+
+    def bind(nsm, prefix, uri_, attr):
+        """choose a prefix for uri_ in nsm (modifying nsm); -> prefix"""
+        if not uri_:
+            if not attr and '' in nsm:
+                del nsm['']
+            return ''
+        if uri_ == XML_NS:
+            return 'xml'
+        if prefix is not None and prefix != 'xml' and (prefix or not attr):
+            if nsm.get(prefix) == uri_:
+                return prefix
+            if prefix not in nsm:
+                nsm[prefix] = uri_
+                return prefix
+        for p, u in nsm.items():
+            if u == uri_ and (p or not attr):
+                return p
+        while True:
+            p = 'ns%d' % counter[0]
+            counter[0] += 1
+            if p not in nsm:
+                nsm[p] = uri_
+                return p
+
+    def conv(r, parent, pmap):
+        k = r.kind
+        m = _model.Node(k, doc, parent)
+        if k == 'element':
+            nsm = dict(pmap)
+            nsm.update(r.namespaces)
+            # the element's own name first: an unprefixed hint claims the default namespace
+            if r.uri and (r.prefix or '') == '' and nsm.get('', r.uri) != r.uri:
+                nsm[''] = r.uri
+            p = bind(nsm, r.prefix or '', r.uri, False)
+            m.uri, m.local, m.prefix = r.uri, r.local, p
+            m.qname = (p + ':' + r.local) if p else r.local
+            for a in r.attributes:
+                ap = bind(nsm, a.prefix or None, a.uri, True)
+                y = _model.Node('attribute', doc, m)
+                y.uri, y.local, y.prefix, y.value = a.uri, a.local, ap, a.value
+                y.qname = (ap + ':' + a.local) if ap else a.local
+                m.attributes.append(y)
+            m._nsmap = nsm
+            for pfx, u in [('xml', XML_NS)] + sorted(nsm.items()):
+                y = _model.Node('namespace', doc, m)
+                y.local = y.qname = pfx
+                y.value = u
+                m.namespaces.append(y)
+            for ch in r.children:
+                m.children.append(conv(ch, m, nsm))
+        elif k == 'text' or k == 'comment':
+            m.value = r.value
+        elif k == 'pi':
+            m.local = m.qname = r.local
+            m.value = r.value
+        return m
+    rootm = doc.root
+    rootm._nsmap = {}
+    for ch in root.children:
+        rootm.children.append(conv(ch, rootm, {}))
+    _model._finalize(doc)
+    return doc
+
+
+# ---------------------------------------------------------------------------
+# Transformation state
+# ---------------------------------------------------------------------------
+class _Globals(object):
+    def __init__(self, st):
+        self.st = st
+        self.values = {}
+        self.defs = dict((g.key, g) for g in st.sheet.globals)
+        self.active = []
+
+    def force(self, key):
+        v = self.values.get(key, self)
+        if v is not self:
+            return v
+        g = self.defs.get(key)
+        if g is None:
+            raise KeyError(key)
+        if key in self.active:
+            raise XSLTStaticError('circular definition of global variable $%s (11.4)' % key)
+        st = self.st
+        if g.is_param and key in st.params:
+            v = st.params[key]
+            if isinstance(v, bool) or isinstance(v, str):
+                pass
+            elif isinstance(v, (int, float)):
+                v = float(v)
+            else:
+                raise TypeError('parameter %s: unsupported value %r' % (key, v))
+        else:
+            self.active.append(key)
+            try:
+                # 11.4: current node = root of the source document, list of one
+                c = _Ctx(st.source.root, 1, 1, _Env(self), None, None)
+                v = g.value.get(st, c)
+            finally:
+                self.active.pop()
+        self.values[key] = v
+        return v
+
+
+class _State(object):
+    def __init__(self, sheet, source, params, resolver, messages, result):
+        self.sheet = sheet
+        self.params = params or {}
+        self.resolver = resolver
+        self.messages = messages
+        self.result = result
+        self.docs = {}               # absolute URI -> Document (None: unretrievable)
+        self.docseq = {}             # Document -> small number (generate-id)
+        self.keytabs = {}            # (docnum, key name) -> {value: [nodes]}
+        self.match_cache = {}
+        self.space_cache = {}
+        self.functions = dict(rx.extension_functions())
+        self.functions.update({
+            ('', 'key'): self.f_key, ('', 'current'): self.f_current,
+            ('', 'document'): self.f_document, ('', 'generate-id'): self.f_generate_id,
+            ('', 'unparsed-entity-uri'): self.f_unparsed_entity_uri,
+            (NS_EXSL_COMMON, 'node-set'): self.f_nodeset, (NS_XALAN, 'nodeset'): self.f_nodeset,
+            (NS_XALAN_OLD, 'nodeset'): self.f_nodeset,
+            (NS_EXSL_COMMON, 'object-type'): self.f_object_type,
+            (_GUARD_URI, 'ns'): self.f_guard,
+        })
+        self.source = self.strip_document(source)
+        if self.source.uri is not None:
+            self.docs[self.source.uri] = self.source
+        self.globals = _Globals(self)
+
+    def recover(self, clause):
+        r = self.result.recoveries
+        if clause not in r:
+            r.append(clause)
+
+    # -- 3.4 -----------------------------------------------------------------
+    def strips(self, el):
+        """True iff whitespace-only text children of source element el are
+        stripped as far as the element NAME is concerned."""
+        k = (el.uri, el.local)
+        r = self.space_cache.get(k)
+        if r is None:
+            r = False
+            best = None
+            for prec, prio, order, test, strip in self.sheet.space_rules:   # ascending
+                if test[0] == 'any' or (test[0] == 'ns' and test[1] == el.uri) or \
+                        (test[0] == 'name' and test[1] == el.uri and test[2] == el.local):
+                    if best is not None and best[0] == prec and best[1] == prio and best[2] != strip:
+                        self.recover('3.4-strip-preserve-conflict')
+                    best = (prec, prio, strip)
+            if best is not None:
+                r = best[2]
+            self.space_cache[k] = r
+        return r
+
+    def strip_document(self, doc):
+        if not self.sheet.space_rules:
+            return doc
+        drop = set()
+        # (node, xml:space preserve in effect)
+        stack = [(doc.root, False)]
+        while stack:
+            n, pres = stack.pop()
+            if n.kind == 'element':
+                for a in n.attributes:
+                    if a.local == 'space' and a.uri == XML_NS:
+                        if a.value == 'preserve':
+                            pres = True
+                        elif a.value == 'default':
+                            pres = False
+                strip_here = (not pres) and self.strips(n)
+            else:
+                strip_here = False
+            for ch in n.children:
+                if ch.kind == 'element':
+                    stack.append((ch, pres))
+                elif strip_here and ch.kind == 'text' and _is_ws(ch.value):
+                    drop.add(ch)
+        if not drop:
+            return doc
+        return _clone_document(doc, drop)
+
+    # -- templates -------------------------------------------------------------
+    def find_rule(self, node, mode, lo=None, hi=None):
+        """5.5 conflict resolution among the rules of `mode` (with import
+        precedence in [lo, hi) if given)."""
+        rules = self.sheet.rules.get(mode)
+        if not rules:
+            return None
+        best = None
+        tie = False
+        gv = self.genv()
+        for r in rules:
+            if lo is not None and not (lo <= r.prec < hi):
+                continue
+            if best is not None and (r.prec, r.priority) < (best.prec, best.priority):
+                continue
+            if not r.pattern.matches(self, node, gv):
+                continue
+            if best is None:
+                best = r
+            elif (r.prec, r.priority) > (best.prec, best.priority):
+                best = r
+                tie = False
+            else:
+                if r.template is not best.template:
+                    tie = True
+                if r.order >= best.order:
+                    best = r
+        if tie:
+            # error; recovery: the rule that occurs last in the stylesheet
+            self.recover('5.5-template-conflict')
+        return best
+
+    def genv(self):
+        return _Env(self.globals)
+
+    def apply_to(self, node, pos, size, mode, params, out):
+        rule = self.find_rule(node, mode)
+        if rule is None:
+            self.builtin(node, mode, out)
+        else:
+            self.run_template(rule.template, rule, node, pos, size, mode, params, out)
+
+    def builtin(self, node, mode, out):
+        """5.8 built-in template rules (parameters are not passed on)."""
+        k = node.kind
+        if k == 'element' or k == 'root':
+            ch = node.children
+            size = len(ch)
+            for i, n in enumerate(ch):
+                self.apply_to(n, i + 1, size, mode, None, out)
+        elif k == 'text' or k == 'attribute':
+            out.text(node.value)
+
+    def run_template(self, t, rule, node, pos, size, mode, params, out):
+        env = _Env(self.globals)
+        c = _Ctx(node, pos, size, env, rule, mode)
+        for p in t.params:
+            if params is not None and p.key in params:
+                env[p.key] = params[p.key]
+            else:
+                env[p.key] = p.value.get(self, c)
+        t.body.run(self, c, out)
+
+    def apply_attrsets(self, names, c, out):
+        """7.1.4"""
+        sets = self.sheet.attrsets
+        for nm in names:
+            defs = sets[nm]
+            if len(defs) > 1:
+                self.check_attrset_conflict(defs)
+            for d in defs:                            # increasing import precedence
+                if d.uses:
+                    self.apply_attrsets(d.uses, c, out)
+                # only top-level variables and parameters are visible
+                c2 = _Ctx(c.node, c.pos, c.size, _Env(self.globals), c.rule, c.mode)
+                for a in d.attrs:
+                    a.run(self, c2, out)
+
+    def check_attrset_conflict(self, defs):
+        top = {}
+        for d in defs:
+            for nm in d.const_names:
+                e = top.get(nm)
+                if e is None or d.prec > e[0]:
+                    top[nm] = (d.prec, 1)
+                elif d.prec == e[0]:
+                    top[nm] = (d.prec, e[1] + 1)
+        for nm, (prec, cnt) in top.items():
+            if cnt > 1:
+                self.recover('7.1.4-attribute-set-conflict')
+
+    def make_rtf(self, body, c, base):
+        root = ResultNode('root')
+        body.run(self, c, _Builder(root, self))
+        doc = _result_to_model(root, base)
+        doc.rtf = True
+        doc.result_root = root
+        return [doc.root]
+
+    # -- functions ---------------------------------------------------------------
+    def f_guard(self, ctx, args):
+        v = args[0]
+        if isinstance(v, list) and _is_rtf_value(v):
+            raise XSLTDynamicError('a result tree fragment is used where a node-set is required (11.1)')
+        return v
+
+    def f_current(self, ctx, args):
+        return [ctx.current]
+
+    def f_nodeset(self, ctx, args):
+        v = args[0]
+        if not isinstance(v, list):
+            raise XSLTUnsupported('exsl:node-set() of a %s' % rx.type_name(v))
+        if _is_rtf_value(v):
+            doc = v[0].doc
+            twin = getattr(doc, 'twin', None)
+            if twin is None:
+                twin = _result_to_model(doc.result_root, doc.uri)
+                doc.twin = twin
+            return [twin.root]
+        return v
+
+    def f_object_type(self, ctx, args):
+        v = args[0]
+        if isinstance(v, list) and _is_rtf_value(v):
+            return 'RTF'
+        return rx.type_name(v)
+
+    def f_generate_id(self, ctx, args):
+        if args:
+            v = args[0]
+            if not isinstance(v, list) or (v and _is_rtf_value(v)):
+                raise XSLTDynamicError('generate-id(): argument is not a node-set')
+            if not v:
+                return ''
+            n = v[0]
+        else:
+            n = ctx.node
+        d = self.docseq.get(n.doc)
+        if d is None:
+            d = self.docseq[n.doc] = len(self.docseq) + 1
+        return 'id%dn%d' % (d, n.order)
+
+    def f_unparsed_entity_uri(self, ctx, args):
+        name = rx.to_string(args[0])
+        doc = ctx.node.doc
+        e = doc.unparsed_entities.get(name)
+        if e is None:
+            return ''
+        base, sysid, pubid, notation = e
+        return urljoin(doc.uri or '', sysid or '')
+
+    def f_key(self, ctx, args):
+        nsm = ctx.namespaces
+        q = _split_qname(_strip(rx.to_string(args[0])))
+        if q is None:
+            raise XSLTDynamicError('key(): %r is not a QName' % rx.to_string(args[0]))
+        p, l = q
+        if p is None:
+            name = ('', l)
+        elif p == 'xml':
+            name = (XML_NS, l)
+        elif p in nsm:
+            name = (nsm[p], l)
+        else:
+            raise XSLTDynamicError('key(): unbound prefix in %r' % rx.to_string(args[0]))
+        if name not in self.sheet.keys:
+            raise XSLTUnsupported('key(): no xsl:key named {%s}%s (XSLT 1.0 does not say)' % name)
+        v = args[1]
+        if isinstance(v, list) and not _is_rtf_value(v):
+            values = [n.string_value() for n in v]
+        else:
+            values = [rx.to_string(v)]
+        tab = self.key_table(ctx.node.doc, name)
+        out = []
+        for s in values:
+            out.extend(tab.get(s, ()))
+        return out
+
+    def key_table(self, doc, name):
+        k = (doc.docnum, name)
+        tab = self.keytabs.get(k)
+        if tab is None:
+            if k in self.keytabs:
+                raise XSLTStaticError('circular key definition')
+            self.keytabs[k] = None
+            tab = {}
+            gv = self.genv()
+            for kd in self.sheet.keys[name]:
+                for n in doc.nodes(True, False):
+                    if not kd.match.matches(self, n, gv):
+                        continue
+                    v = kd.use.eval_at(self, n, 1, 1, gv)
+                    if isinstance(v, list):
+                        vals = [x.string_value() for x in v]
+                    else:
+                        vals = [rx.to_string(v)]
+                    for s in vals:
+                        lst = tab.setdefault(s, [])
+                        if not any(x is n for x in lst):
+                            lst.append(n)
+            self.keytabs[k] = tab
+        return tab
+
+    def load_document(self, href, base):
+        href0 = href
+        href, frag = urldefrag(href)
+        if frag:
+            raise XSLTUnsupported('document(): fragment identifier in %r' % href0)
+        absuri = urljoin(base or '', href)
+        if absuri in self.docs:
+            return self.docs[absuri]
+        doc = None
+        text = None
+        if self.resolver is not None:
+            try:
+                text = self.resolver(href if href else absuri, base)
+            except (XSLTUnsupported, XSLTStaticError, XSLTDynamicError):
+                raise
+            except Exception:
+                text = None
+        if text is not None:
+            try:
+                doc = _model.parse_document(text, absuri)
+            except _model.UnsupportedDocument as e:
+                raise XSLTUnsupported('document(%r): %s' % (href, e))
+            except ValueError:
+                doc = None
+        if doc is None:
+            # 12.1: error retrieving the resource; recovery: empty node-set
+            self.recover('12.1-document-unretrievable')
+        else:
+            doc = self.strip_document(doc)
+        self.docs[absuri] = doc
+        return doc
+
+    def f_document(self, ctx, args):
+        a = args[0]
+        base_node = None
+        if len(args) > 1:
+            b = args[1]
+            if not isinstance(b, list) or _is_rtf_value(b):
+                raise XSLTDynamicError('document(): the second argument is not a node-set')
+            if not b:
+                # 12.1: error; recovery: empty node-set
+                self.recover('12.1-document-empty-base')
+                return []
+            base_node = b[0]
+        out = []
+        if isinstance(a, list) and not _is_rtf_value(a):
+            for n in a:
+                bn = base_node if base_node is not None else n
+                d = self.load_document(n.string_value(), bn.doc.uri)
+                if d is not None:
+                    out.append(d.root)
+        else:
+            if base_node is not None:
+                base = base_node.doc.uri
+            else:
+                base = ctx.namespaces.get(_BASE_KEY)
+            d = self.load_document(rx.to_string(a), base)
+            if d is not None:
+                out.append(d.root)
+        return out
+
+
+def transform(stylesheet, source, params=None, resolver=None, messages=None):
+    """Apply a compiled stylesheet to a vf.model Document; -> ResultRoot.
+
+    params: {name: str | float | int | bool}, name = local name or '{uri}local'.
+    resolver(href, base_uri) -> text | None for document().
+    """
+    result = ResultRoot()
+    if messages is None:
+        messages = []
+    result.messages = messages
+    st = _State(stylesheet, source, params, resolver, messages, result)
+    try:
+        # global variables: all evaluated, in declaration order (dependencies on demand)
+        for g in stylesheet.globals:
+            st.globals.force(g.key)
+        out = _Builder(result, st)
+        st.apply_to(st.source.root, 1, 1, None, None, out)
+    except RecursionError:
+        raise XSLTUnsupported('recursion too deep for the reference interpreter')
+    output = dict(stylesheet.output)
+    if '#conflicts' in output:
+        st.recover('16-output-conflict')
+        del output['#conflicts']
+    method = output.get('method')
+    if method is None:
+        method = 'xml'
+        for ch in result.children:
+            if ch.kind == 'text' and _is_ws(ch.value):
+                continue
+            if ch.kind == 'element' and ch.uri == '' and ch.local.lower() == 'html':
+                method = 'html'
+            if ch.kind in ('element', 'text'):
+                break
+    output['effective-method'] = method
+    result.output = output
+    return result
